@@ -9,7 +9,7 @@ import DdoModel.Proofs.SeqInv
 
 `Coalesces F L` ("the duplicate-free fringe `F` is a coalescing of the multiset `L`"): every entry
 of `F` originates from `L` and every entry of `L` is dominated by an entry of `F`.
-`enqueue_true_spec` says that the fringe after `st.enqueue true ub cs` is a coalescing of exactly
+`enqueue_true_spec` says that the fringe after `st.enqueue true cs` is a coalescing of exactly
 the multiset the plain fringe would hold (`enqueue_false_spec`); `Inv.of_coalesce` transports the
 coverage invariant along `Coalesces` when `Phi` is monotone in the value.  Core Lean only. -/
 set_option linter.unusedSectionVars false
@@ -197,29 +197,27 @@ theorem Coalesces.trans {F : List (SubP S)} {L1 L : SubP S → Prop} (h : Coales
   obtain ⟨s, hs, hd⟩ := h.2 s1 hs1
   exact ⟨s, hs, hd.trans hd1⟩
 
-theorem enqOne_true_spec (ub : Int) (st : SeqSt S) (c0 : SubP S) :
-    (enqOne true ub st c0).bestLb = st.bestLb ∧ (enqOne true ub st c0).bestSol = st.bestSol ∧
-    (enqOne true ub st c0).bestUb = st.bestUb ∧ (enqOne true ub st c0).abort = st.abort ∧
-    (KeysNodup st.fringe → KeysNodup (enqOne true ub st c0).fringe) ∧
-    Coalesces (enqOne true ub st c0).fringe
-      (fun c => c ∈ st.fringe ∨ (c = { c0 with ub := min ub c0.ub } ∧ min ub c0.ub > st.bestLb)) := by
+theorem enqOne_true_spec (st : SeqSt S) (c0 : SubP S) :
+    (enqOne true st c0).bestLb = st.bestLb ∧ (enqOne true st c0).bestSol = st.bestSol ∧
+    (enqOne true st c0).bestUb = st.bestUb ∧ (enqOne true st c0).abort = st.abort ∧
+    (KeysNodup st.fringe → KeysNodup (enqOne true st c0).fringe) ∧
+    Coalesces (enqOne true st c0).fringe
+      (fun c => c ∈ st.fringe ∨ (c = c0 ∧ c0.ub > st.bestLb)) := by
   unfold enqOne
-  by_cases hgt : min ub c0.ub > st.bestLb
-  · have hm : Coalesces (pushSpec true st.fringe { c0 with ub := min ub c0.ub })
-        (fun c => c ∈ st.fringe ∨ (c = { c0 with ub := min ub c0.ub } ∧ min ub c0.ub > st.bestLb)) := by
+  by_cases hgt : c0.ub > st.bestLb
+  · have hm : Coalesces (pushSpec true st.fringe c0)
+        (fun c => c ∈ st.fringe ∨ (c = c0 ∧ c0.ub > st.bestLb)) := by
       refine ⟨fun s hs => (pushSpec_true_orig _ _ s hs).mono (fun a ha => ?_), fun c hc => ?_⟩
       · exact ha.elim (fun h => Or.inr ⟨h, hgt⟩) Or.inl
       · exact pushSpec_true_surv _ _ c (hc.elim Or.inr (fun h => Or.inl h.1))
-    have hk := pushSpec_true_keysNodup st.fringe { c0 with ub := min ub c0.ub }
-    show (if min ub c0.ub > st.bestLb then _ else st).bestLb = _ ∧ _
+    have hk := pushSpec_true_keysNodup st.fringe c0
     rw [if_pos hgt]
     simp only
     cases bumpLayer st.openByLayer c0.depth
-        ((pushSpec true st.fringe { c0 with ub := min ub c0.ub }).length - st.fringe.length) with
+        ((pushSpec true st.fringe c0).length - st.fringe.length) with
     | some l => exact ⟨rfl, rfl, rfl, rfl, hk, hm⟩
     | none => exact ⟨rfl, rfl, rfl, rfl, hk, hm⟩
-  · show (if min ub c0.ub > st.bestLb then _ else st).bestLb = _ ∧ _
-    rw [if_neg hgt]
+  · rw [if_neg hgt]
     refine ⟨rfl, rfl, rfl, rfl, id, (Coalesces.refl st.fringe).congr (fun c => ?_)⟩
     constructor
     · intro h; exact Or.inl h
@@ -228,16 +226,16 @@ theorem enqOne_true_spec (ub : Int) (st : SeqSt S) (c0 : SubP S) :
       · exact absurd h hgt
 
 /-- **specification of `enqueue_cutset` on the duplicate-free fringe**: the new fringe is a
-    coalescing of the old fringe together with the capped cut-set nodes that beat the incumbent
+    coalescing of the old fringe together with the cut-set nodes that beat the incumbent
     (exactly the multiset of `enqueue_false_spec`): every new entry is one of these, with the bound
     of one of these that is not smaller; each of these is dominated by a new entry.  The incumbent,
     `best_ub`, `abort` are untouched and the fringe stays duplicate-free. -/
-theorem enqueue_true_spec (st : SeqSt S) (ub : Int) (cs : List (SubP S)) :
-    (st.enqueue true ub cs).bestLb = st.bestLb ∧ (st.enqueue true ub cs).bestSol = st.bestSol ∧
-    (st.enqueue true ub cs).bestUb = st.bestUb ∧ (st.enqueue true ub cs).abort = st.abort ∧
-    (KeysNodup st.fringe → KeysNodup (st.enqueue true ub cs).fringe) ∧
-    Coalesces (st.enqueue true ub cs).fringe
-      (fun c => c ∈ st.fringe ∨ ∃ c0 ∈ cs, c = { c0 with ub := min ub c0.ub } ∧ min ub c0.ub > st.bestLb) := by
+theorem enqueue_true_spec (st : SeqSt S) (cs : List (SubP S)) :
+    (st.enqueue true cs).bestLb = st.bestLb ∧ (st.enqueue true cs).bestSol = st.bestSol ∧
+    (st.enqueue true cs).bestUb = st.bestUb ∧ (st.enqueue true cs).abort = st.abort ∧
+    (KeysNodup st.fringe → KeysNodup (st.enqueue true cs).fringe) ∧
+    Coalesces (st.enqueue true cs).fringe
+      (fun c => c ∈ st.fringe ∨ ∃ c0 ∈ cs, c = c0 ∧ c0.ub > st.bestLb) := by
   rw [enqueue_eq_foldl]
   induction cs generalizing st with
   | nil =>
@@ -245,8 +243,8 @@ theorem enqueue_true_spec (st : SeqSt S) (ub : Int) (cs : List (SubP S)) :
     simp
   | cons c0 cs ih =>
     simp only [List.foldl_cons]
-    obtain ⟨h1, h2, h3, h4, hk, h5⟩ := enqOne_true_spec ub st c0
-    obtain ⟨i1, i2, i3, i4, ik, i5⟩ := ih (enqOne true ub st c0)
+    obtain ⟨h1, h2, h3, h4, hk, h5⟩ := enqOne_true_spec st c0
+    obtain ⟨i1, i2, i3, i4, ik, i5⟩ := ih (enqOne true st c0)
     refine ⟨i1.trans h1, i2.trans h2, i3.trans h3, i4.trans h4, fun h => ik (hk h), ?_⟩
     rw [h1] at i5
     refine i5.trans ?_ ?_
@@ -263,10 +261,10 @@ theorem enqueue_true_spec (st : SeqSt S) (ub : Int) (cs : List (SubP S)) :
         · exact ⟨c, Or.inr ⟨c1, e1, e, hg⟩, Dom.refl c⟩
 
 /-- the duplicate-free fringe after `enqueue_cutset` is a coalescing of the plain multiset fringe -/
-theorem enqueue_true_coalesces_false (st : SeqSt S) (ub : Int) (cs : List (SubP S)) :
-    Coalesces (st.enqueue true ub cs).fringe (fun c => c ∈ (st.enqueue false ub cs).fringe) := by
-  obtain ⟨_, _, _, _, _, h⟩ := enqueue_true_spec st ub cs
-  obtain ⟨_, _, _, _, e⟩ := enqueue_false_spec st ub cs
+theorem enqueue_true_coalesces_false (st : SeqSt S) (cs : List (SubP S)) :
+    Coalesces (st.enqueue true cs).fringe (fun c => c ∈ (st.enqueue false cs).fringe) := by
+  obtain ⟨_, _, _, _, _, h⟩ := enqueue_true_spec st cs
+  obtain ⟨_, _, _, _, e⟩ := enqueue_false_spec st cs
   exact h.congr (fun c => (e c).symm)
 
 /-! ### transporting the coverage invariant along a coalescing -/
